@@ -234,10 +234,28 @@ class Leaves:
                 out |= self.recv_root(n[1], depth + 1)
             elif k == 'param':
                 out.add(('param', n[2] or str(n[1])))
+            elif k == 'agg' and n[2] in ('Ok', 'Some') and n[3]:
+                out |= self.recv_root(n[3][0][1], depth + 1)
             elif k == 'call':
                 name = n[1].rsplit('::', 1)[-1]
+                optres = any(n[1].startswith(pre) for pre in OPT_RES)
                 if name in self.PASS_RECV and n[2]:
                     out |= self.recv_root(n[2][0], depth + 1)
+                elif optres and name in ('ok_or', 'ok_or_else', 'map_err', 'ok', 'as_mut', 'cloned', 'copied', 'or_else') and n[2]:
+                    out |= self.recv_root(n[2][0], depth + 1)
+                elif optres and name in ('and_then', 'map') and len(n[2]) > 1 and self._closure_path(n[2][1]):
+                    # the payload of X.and_then(|p| E) is the payload of E; where E is rooted at the closure parameter p
+                    # it is rooted at the payload of X
+                    for cp in self._closure_path(n[2][1]):
+                        f = self.body_of(cp)
+                        if f is None:
+                            out.add(('other', 'no body ' + cp))
+                            continue
+                        for r in self.recv_root(self.ret_terms(f), depth + 1):
+                            if r[0] == 'param':
+                                out |= self.recv_root(n[2][0], depth + 1)
+                            else:
+                                out.add(r)
                 else:
                     mname = None
                     for a in n[2][1:3]:
